@@ -17,12 +17,16 @@ RECURSIVE NodeOf(_)
 NodeOf(j) == [k |-> j.k, tag |-> j.tag, anon |-> j.anon, ptr |-> j.ptr, exp |-> j.exp, id |-> j.id,
               kids |-> [i \in 1..Len(j.kids) |-> NodeOf(j.kids[i])]]
 ShapeOf(j) == [i \in 1..Len(j) |-> NodeOf(j[i])]
-Bound(e) == {c.id : c \in {x \in Own(ShapeOf(e.shape), TRUE) : x.tag \in {"value", "prop"}}}
-Cust(e) == {c.id : c \in {x \in Own(ShapeOf(e.shape), TRUE) : x.tag = "cust"}}
 Name(p, i) == p \o ToString(i)
+Binding == {"value", "prop", "prefix", "wire", "func", "logger"}
+Bound(e) == {c.id : c \in {x \in Own(ShapeOf(e.shape), TRUE) : x.tag \in Binding}}
+TagOfId(e, id) == LET own == {x \in Own(ShapeOf(e.shape), TRUE) : x.id = id} IN (CHOOSE x \in own : TRUE).tag
+\* what a processed leaf holds: its configured value for configuration tags, some component / logger otherwise
+Want(e, id) == IF TagOfId(e, id) \in {"value", "prop", "prefix"} THEN Name("v", id) ELSE "set"
+Cust(e) == {c.id : c \in {x \in Own(ShapeOf(e.shape), TRUE) : x.tag = "cust"}}
 \* C11 exactly + flatten: bound leaves hold their configured value
 BoundOK(e) == \A i \in 1..Len(e.leaves) : LET lf == e.leaves[i] IN
-                 lf.id \in Bound(e) => lf.val = Name("v", lf.id)
+                 lf.id \in Bound(e) => lf.val = Want(e, lf.id)
 \* C11 frame: every other leaf keeps its initial value (unexported, untagged, foreign-tagged, hidden behind
 \* a named / tagged / pointer struct field)
 FrameOK(e) == \A i \in 1..Len(e.leaves) : LET lf == e.leaves[i] IN
